@@ -175,6 +175,40 @@ def write_replay_record(prop, cond, fn, args, kwargs, rep, message):
     return path
 
 
+def contract_call_guard(src: str, fns):
+    """CrossHair ENFORCES the contracts of functions called from the function under
+    analysis and silently ignores every path on which a callee's own postcondition
+    fails.  A condition function must therefore never call another function that
+    carries a PEP-316 contract (the generated reachability twins are the only,
+    deliberate, exception).  Returns the offending (caller, callee) pairs."""
+    tree = ast.parse(src)
+    contracted = set()
+    defs = {}
+    for node in ast.walk(tree):
+        if isinstance(node, ast.FunctionDef):
+            defs[node.name] = node
+            doc = ast.get_docstring(node) or ""
+            if re.search(r"^\s*post(\[[^\]]*\])?:", doc, re.M):
+                contracted.add(node.name)
+    bad = []
+    for fn in fns:
+        node = defs.get(fn)
+        if node is None:
+            continue
+        seen, todo = set(), [node]
+        while todo:
+            cur = todo.pop()
+            for sub in ast.walk(cur):
+                if isinstance(sub, ast.Call) and isinstance(sub.func, ast.Name):
+                    callee = sub.func.id
+                    if callee in contracted and callee != fn:
+                        bad.append((fn, callee))
+                    if callee in defs and callee not in seen:
+                        seen.add(callee)
+                        todo.append(defs[callee])
+    return bad
+
+
 def check(prop: str, tier: str, only: str = "") -> int:
     t0 = time.time()
     seed = int(os.environ.get("VERIF_SEED", "0") or 0)
@@ -206,6 +240,9 @@ def check(prop: str, tier: str, only: str = "") -> int:
                 files[key]["twins"].append(c.fn)
             c._file = files[key]["path"]
         for key, f in files.items():
+            bad = contract_call_guard(f["src"], [c.fn for c in items if c.kind == "crosshair" and getattr(c, "_file", None) == f["path"]])
+            if bad:
+                raise RuntimeError(f"harness error: condition functions call functions that carry their own contract: {bad[:5]}")
             txt = f["src"] + "\n\n# ---- reachability twins (generated)\n"
             done = set()
             for fn in f["twins"]:
